@@ -568,6 +568,10 @@ class Arr:
             if isinstance(o, Arr):
                 adopt_legs(root, None, sel, o)
             self.tags['inplace_done'] = True
+        elif 'sel_of' not in self.tags and self.tags.get('alloc') in ('zeros', 'ones'):
+            # whole-array accumulation  a += v  on an array allocated by np.zeros / np.ones: a store covering every position
+            rec = {'sel': tuple(('all',) for _ in self.shape), 'value': o, 'where': CTX.interp.where() if CTX.interp else '', 'node': CTX.interp.cur_node() if CTX.interp else None, 'mode': name}
+            self.tags.setdefault('stores', []).append(rec)
         CTX.event('inplace-op', target=self, op=name, value=o)
         if name in ('mul', 'truediv') and isinstance(o, (int, float, complex)) and not isinstance(o, bool) and 'sel_of' not in self.tags:
             # x *= c : the array now holds c times its previous value; keep that value as a snapshot so that scalar factors stay traceable
@@ -715,6 +719,7 @@ def reshape(a, shape):
             tags['mx'] = known[0]
         else:
             CTX.keep.append(root)
+            CTX.__dict__.setdefault('mx_roots', {})[id(root)] = root
             tags['mx'] = _mx.src(('unf', id(root), str(Size.of(shape[0], CTX.atoms))))
     elif known is not None:
         tags['mx_unf'] = known
@@ -1375,6 +1380,7 @@ def unfolding_mx(a, rows):
     while root.tags.get('is_reshape') and root.parents:
         root = root.parents[0]
     CTX.keep.append(root)
+    CTX.__dict__.setdefault('mx_roots', {})[id(root)] = root
     return _mx.src(('unf', id(root), str(Size.of(rows, CTX.atoms))))
 
 
@@ -1405,6 +1411,7 @@ def mx_after_contract(r, a, b, ax_a, ax_b):
 def orth_after_contract(r, a, b, ax_a, ax_b, ra, rb):
     """(isometry) x (isometry) along the matching side stays an isometry -- used for RO/LO propagation through R-factor pushes"""
     r.tags['factors'] = (a, b)
+    r.tags['contract_axes'] = (tuple(ax_a), tuple(ax_b))
 
 
 def dot(a, b):
